@@ -228,10 +228,13 @@ func (s *rsock) serve(c net.Conn) {
 	}
 	id := ccb.AdString(ad, ccb.AttrClaimID)
 	m := s.env.byID(id)
+	s.env.mu.Lock()
+	isShared := s == s.env.shared
+	s.env.mu.Unlock()
 	tgt := s.owner
 	cls := "wrong"
 	switch {
-	case m != nil && (m == s.owner || (s == s.env.shared && m.target == "accept")):
+	case m != nil && (m == s.owner || (isShared && m.target == "accept")):
 		tgt = m
 		cls = "own"
 		if ccb.AdString(ad, ccb.AttrRequestID) != m.rid || ccb.AdString(ad, ccb.AttrMyAddress) != m.addrAttr {
